@@ -23,6 +23,7 @@ func c20(c *eng.Ctx, r *eng.Report) {
 		"R20.6 a record is rewritten read-modify-write — UpdateMiner(m, db, false), which writes stake, account and status together, is given the record just read from the registry — and RemoveMiner erases the four slots only on the `left == 0` edge. " +
 		"R20.7 the stake total and the proposer set used for leader election grow together, by the record's own stake, only for non-nil records whose status is normal and whose ApplyHeight has been reached, and the proposer count is the size of that same set (no second walk with its own filter). " +
 		"R20.11 every lookup answers from the state it is handed: no method of MinerManager consults a process-local cache or writes a package variable — the registration record, stake, account and status live in the AccountDB passed in, and a memo keyed by id outlives the deletion of the record (apply, refund everything, apply again with new keys: lookup by id returns the old ApplyHeight and keys while the registry iteration sees the new record); " +
+		"R20.13 a miner enters the registry as a normal miner: minerApplyExecutor.Execute sets Status to the constant MinerStatusNormal on the record it hands to AddMiner, on every path — the record is decoded from the transaction's JSON, so otherwise the applicant chooses its status: a record that is locked and registered but aborted (or of an unknown status) is found by id and missing from the proposer totals; " +
 		"R20.12 a miner record disappears only through the reviewed paths: RemoveMiner is called by the refund path (which has computed what is left and scheduled the refund) and by the two one-off clean-ups of unused validators, nowhere else — a second caller that removes an aborted miner to let it apply again drops the stake still locked in the record (200 of 10000 vanish); " +
 		"R20.10 an escrow slot accumulates: in RefundManager.Add every SetData for an id whose slot was found non-empty writes a value computed from what GetData returned (existing + new) — only on the `slot empty` edge may the new amount be stored alone; a second batch for the same height and account (the unstake opcodes flush per call; a reward landing on the same height) otherwise replaces the first and the earlier refund vanishes; " +
 		"R20.9 a refund never exceeds the stake: the subtraction `miner.Stake - money` in GetRefundStake happens only on the `miner.Stake >= money` edge (the fields are unsigned — a test of the difference against zero can never fire, the difference wraps to about 2^64 and the full amount is scheduled); " +
@@ -42,6 +43,7 @@ func c20(c *eng.Ctx, r *eng.Report) {
 	c20EscrowAccumulates(c, r)
 	c20LookupsUncached(c, r)
 	c20WhoRemovesMiners(c, r)
+	c20ApplyStartsNormal(c, r)
 }
 
 func c20Layers(c *eng.Ctx, r *eng.Report) {
@@ -813,4 +815,38 @@ func c20WhoRemovesMiners(c *eng.Ctx, r *eng.Report) {
 	if n == 0 {
 		r.Fail(rule, "miner-remover:none", "", "no caller of RemoveMiner found: the rule has lost its anchor")
 	}
+}
+
+// c20ApplyStartsNormal: see R20.13.
+func c20ApplyStartsNormal(c *eng.Ctx, r *eng.Report) {
+	const rule = "R20.13"
+	r.Min(rule, 1)
+	fn := c.Func("executor", "(*minerApplyExecutor).Execute")
+	if !r.Anchor(fn != nil, rule, "executor.(*minerApplyExecutor).Execute") {
+		return
+	}
+	var add ssa.Instruction
+	for _, s := range eng.Sites(fn) {
+		if strings.HasSuffix(s.Name(), "MinerManager).AddMiner") {
+			add = s.Instr
+		}
+	}
+	if !r.Anchor(add != nil, rule, "minerApplyExecutor.Execute: AddMiner call") {
+		return
+	}
+	ok := false
+	for _, b := range fn.Blocks {
+		for _, in := range b.Instrs {
+			st, isSt := in.(*ssa.Store)
+			if !isSt {
+				continue
+			}
+			if t, f := eng.FieldOf(st.Addr); f == "Status" && strings.HasSuffix(t, "types.Miner") {
+				if k, isK := eng.ConstInt(st.Val); isK && k == 0 && eng.Dominates(in, add) {
+					ok = true
+				}
+			}
+		}
+	}
+	r.Check(ok, rule, "apply:status-normal", c.Pos(add.Pos()), "Status = MinerStatusNormal dominates AddMiner", "minerApplyExecutor.Execute hands AddMiner a record whose Status it did not set to MinerStatusNormal: the record comes out of the transaction's JSON, so the applicant chooses the status it is registered with — a miner registered as aborted has its stake locked and is found by id, but is absent from the proposer/validator totals and the account iteration: the lookups disagree")
 }
